@@ -47,4 +47,6 @@ def observed(src):
         rl.HoistLiterals.get_binding = real
     # what rename() will replace is the references of the bindings: they must be exactly the collected nodes
     refs = sum(len(b.references) for b in h._hoisted.values())
-    return req, ' '.join(seen), refs
+    # the dictionary of hoisted bindings, in creation order: value and number of references
+    groups = ' '.join('%s:%d' % (enc_value(b.value), len(b.references)) for b in h._hoisted.values())
+    return req, ' '.join(seen), refs, groups
